@@ -258,6 +258,20 @@ def audit_case(case):
             ta = rng.choice(["--type-annotations", "--no-type-annotations"])
             r = run_observed(work, ["cdd", "doctrans", "--filename", victim, "--format", fmt, ta], cwd=tree, timeout=300)
             allowed_writes = [victim]
+        elif kind == "sync_properties":
+            # no --input-eval: the input module is DATA.  The selected name is bound where a static lookup does not find it (under try /
+            # if / by unpacking), and the module's top-level code would leave a sentinel if it ran
+            inp = os.path.join(tree, "settings.py")
+            shape = rng.choice(["try:\n    import fastjson\n    BACKENDS = ('fast', 'slow')\nexcept ImportError:\n    BACKENDS = ('slow',)\n",
+                                "if True:\n    BACKENDS = ('sgd', 'adam')\n", "BACKENDS, OTHER = ('sgd', 'adam'), 1\n",
+                                "BACKENDS = ('sgd', 'adam')\n"])
+            open(inp, "w").write("import os\nopen(%r, 'w').write('the analysed input module was executed')\n%s" % (os.path.join(sdir, "S_settings"), shape))
+            tgt = os.path.join(tree, "target.py")
+            open(tgt, "w").write('"""t"""\n\nclass Trainer(object):\n    """\n    t\n\n    :cvar backend: b\n    """\n    backend: str = "sgd"\n')
+            before = snapshot(tree)
+            r = run_observed(work, ["cdd", "sync_properties", "--input-filename", inp, "--input-param", "BACKENDS", "--output-filename", tgt,
+                                    "--output-param", "Trainer.backend"], cwd=tree, timeout=300)
+            allowed_writes = [tgt]
         elif kind == "sync":
             tgt = os.path.join(tree, "target.py")
             open(tgt, "w").write('"""t"""\n\nclass Victim(object):\n    """\n    old\n\n    :cvar zzz: z\n    """\n    zzz: int = 1\n')
@@ -345,7 +359,7 @@ def run(ctx):
                                  "(a call / subscript / dunder can be spelled)", "impl_output": u["result"], "chars": u["chars"]})
     # audit runs
     n_audit = 24 if ctx.quick else 160
-    kinds = ["library", "library", "doctrans", "sync"]
+    kinds = ["library", "library", "doctrans", "sync", "sync_properties"]
     cases = [(rng.randrange(1 << 30), kinds[i % len(kinds)]) for i in range(n_audit)]
     audits = list(run_cases(audit_case, cases, chunk=1))
     for a in audits:
